@@ -23,6 +23,7 @@ let channels : (string * ((string * string) list -> string)) list = [
   ("sortcodec", Chan_sort.run_codec);
   ("sortkm", Chan_sort.run_km);
   ("xform", Chan_xform.run);
+  ("pmf", Chan_pmf.run);
 ]
 
 let () =
